@@ -1,8 +1,144 @@
 import SLModel.Drv.Util
+import SLModel.Core.Fs
 open Lean
 namespace SL.Drv.C01
+open SL.Drv SL.Fs
 
-/-- stub: no model operations for C01 yet -/
-def handle (_req : Json) : Except String Json := .error "C01: not implemented"
+def pieceOf (j : Json) : Except String Piece := do
+  let a ← j.getArr?
+  match a.toList with
+  | [c, k, t] => return ⟨← c.getNat?, ← k.getNat?, ← t.getNat?⟩
+  | _ => throw "piece"
+
+def pieceJson (p : Piece) : Json := Json.arr #[p.chunk, p.kept, p.total]
+def contentJson (c : Content) : Json := Json.arr (c.map pieceJson).toArray
+
+def opOf (j : Json) : Except String FsOp := do
+  let op ← getStr j "op"
+  match op with
+  | "create" => return .create (← getStr j "n")
+  | "write" => return .write (← getStr j "n") (Piece.full (← getNat j "chunk") (← getNat j "total"))
+  | "set_len" => return .setLen (← getStr j "n") (← getNat j "len")
+  | "fsync" => return .fsync (← getStr j "n")
+  | "rename" => return .rename (← getStr j "a") (← getStr j "b")
+  | "unlink" => return .unlink (← getStr j "n")
+  | "fsync_dir" => return .fsyncDir
+  | _ => throw s!"fs op {op}"
+
+def manifestOf (j : Json) : Except String Manifest := do
+  let files ← (getArrD j "files").toList.mapM fun f => do
+    let n ← getStr f "name"
+    let ps ← (← getArr f "pieces").toList.mapM pieceOf
+    return (n, ps)
+  return ⟨← getNat j "chunk", ← getNat j "size", files, ← getNat j "contents"⟩
+
+/-- why `manifestOkB` fails for one value of the MANIFEST entry (diagnosis for the replay file) -/
+def explain (fs : Fs) (allowed : List Manifest) : Option InodeId → List String
+  | none => ["a crash may leave no MANIFEST entry at all"]
+  | some i =>
+    let ino := fs.inode i
+    (if ino.pending.isEmpty then [] else [s!"MANIFEST inode {i} has unsynced data"]) ++
+    (match allowed.find? (fun m => decide (ino.durable = [Piece.full m.chunk m.size])) with
+     | none => [s!"MANIFEST inode {i} does not hold a complete allowed manifest (allowed chunks {allowed.map (·.chunk)})"]
+     | some m =>
+       m.files.filterMap fun nc =>
+         if settledFileB fs nc.1 nc.2 then none
+         else
+           let h := fs.hist nc.1
+           some (s!"manifest chunk {m.chunk}: file {nc.1} not settled: entry history {repr h}" ++
+             (match h.getLast?.join with
+              | some j => s!", inode {j} pending {(fs.inode j).pending.length} op(s), durable ok = {decide ((fs.inode j).durable = nc.2)}"
+              | none => ", no inode")))
+
+def lookupAllowed (ms : List Manifest) (chunks : List Nat) : List Manifest :=
+  chunks.filterMap fun c => ms.find? (·.chunk == c)
+
+def handle (req : Json) : Except String Json := do
+  let op ← getStr req "op"
+  let ops ← (getArrD req "ops").toList.mapM opOf
+  let ms ← (getArrD req "manifests").toList.mapM manifestOf
+  let reg : Nat → Option Manifest := fun c => ms.find? (·.chunk == c)
+  match op with
+  | "trace" =>
+    -- windows: [{from,to,allowed:[chunks],settled:chunk|null}] covering the states to be checked
+    let wins := (getArrD req "windows").toList
+    let states := (ops.foldl (fun (acc : List Fs × Fs) o => let s := run acc.2 o; (s :: acc.1, s)) ([Fs.empty], Fs.empty)).1.reverse
+    let mut viol : Array Json := #[]
+    let mut checked : Nat := 0
+    for w in wins do
+      let a := getNatD w "from" 0
+      let b := getNatD w "to" 0
+      let allowed := lookupAllowed ms ((← natList (← w.getObjVal? "allowed")))
+      for k in List.range (b + 1 - a) do
+        let k := a + k
+        match states[k]? with
+        | none => pure ()
+        | some fs =>
+          checked := checked + 1
+          if !publishInvB fs allowed then
+            if viol.size < 8 then
+              let why := (fs.hist "MANIFEST").flatMap (fun v => if manifestOkB fs allowed v then [] else explain fs allowed v)
+              viol := viol.push (Json.mkObj [("k", k), ("monitor", "PublishInv"), ("allowed", natsToJson (allowed.map (·.chunk))),
+                ("why", Json.arr (why.map (fun (s : String) => Json.str s)).toArray)])
+      match getOpt w "settled" with
+      | some c =>
+        let chunk ← c.getNat?
+        match reg chunk, states[b]? with
+        | some m, some fs =>
+          checked := checked + 1
+          if !settledB fs m then
+            if viol.size < 8 then
+              viol := viol.push (Json.mkObj [("k", b), ("monitor", "Settled"), ("allowed", natsToJson [chunk]),
+                ("why", Json.arr (((fs.hist "MANIFEST").flatMap (explain fs [m])).map (fun (s : String) => Json.str s)).toArray),
+                ("manifest_history", (repr (fs.hist "MANIFEST")).pretty)])
+        | _, _ => viol := viol.push (Json.mkObj [("k", b), ("monitor", "Settled"), ("why", Json.arr #[Json.str "unregistered manifest chunk"])])
+      | none => pure ()
+    return Json.mkObj [("states_checked", checked), ("violations", Json.arr viol)]
+  | "state" =>
+    let k ← getNat req "k"
+    let fs := runAll Fs.empty (ops.take k)
+    let names := fs.dir.map fun e => Json.mkObj [("name", e.1), ("hist", Json.arr (e.2.map (fun v => match v with | none => Json.null | some i => (i : Json))).toArray)]
+    let inodes := fs.inodes.map fun ino => Json.mkObj [("durable", contentJson ino.durable),
+      ("pending", Json.arr (ino.pending.map (fun o => match o with | .write p => Json.mkObj [("write", p.total)] | .setLen n => Json.mkObj [("set_len", n)])).toArray)]
+    return Json.mkObj [("names", Json.arr names.toArray), ("inodes", Json.arr inodes.toArray)]
+  | "image" =>
+    -- adversary choice → crash image + recovery prediction
+    let k ← getNat req "k"
+    let fs := runAll Fs.empty (ops.take k)
+    let entryChoice := getOpt req "entries"           -- {name: index into hist}
+    let entryDefault := getStrD req "entry_default" "last"
+    let inodeChoice := getOpt req "inodes"            -- {"<inode id>": [j, tear|null]}
+    let inodeDefault := getStrD req "inode_default" "all"
+    let mut img : List (String × Option Content) := []
+    let mut valid := true
+    for e in fs.dir do
+      let h := e.2
+      let idx := match entryChoice.bind (fun c => (c.getObjVal? e.1).toOption) with
+        | some j => (j.getNat?.toOption.getD 0)
+        | none => if entryDefault == "first" then 0 else h.length - 1
+      match h[idx]? with
+      | none => valid := false
+      | some none => img := (e.1, none) :: img
+      | some (some i) =>
+        let ino := fs.inode i
+        let (j, tear) : Nat × Option Nat :=
+          match inodeChoice.bind (fun c => (c.getObjVal? (toString i)).toOption) with
+          | some jt => match jt.getArr?.toOption.map (·.toList) with
+            | some [a, b] => (a.getNat?.toOption.getD 0, b.getNat?.toOption)
+            | _ => (ino.pending.length, none)
+          | none => if inodeDefault == "none" then (0, none) else (ino.pending.length, none)
+        let base := applyAll ino.durable (ino.pending.take j)
+        let c := match tear, ino.pending[j]? with
+          | some t, some (.write p) => base ++ [{ p with kept := t }]
+          | _, _ => base
+        -- membership in the model's crash set (tear offsets: exactly the one requested)
+        if !(inodeCrashes (fun _ => match tear with | some t => [t] | none => []) ino).contains c then valid := false
+        img := (e.1, some c) :: img
+    let imgFn : Image := fun n => (img.lookup n).join
+    let rec? := recover reg imgFn
+    return Json.mkObj [("valid_choice", valid),
+      ("image", Json.mkObj (img.map fun (n, c) => (n, match c with | none => Json.null | some c => contentJson c))),
+      ("recover", match rec? with | some c => (c : Json) | none => Json.null)]
+  | _ => throw s!"C01: unknown op {op}"
 
 end SL.Drv.C01
